@@ -101,7 +101,7 @@ func c20EscapedJS(out string) *engine.Fail {
 // JSON value generator ------------------------------------------------------
 
 func c20JSONValues(depth int) []interface{} {
-	leaves := []interface{}{nil, true, false, 0, -7, 1.5, "", "it's", "a<b>&c", "é\"\\\n", " </script>", []interface{}{}, map[string]interface{}{}}
+	leaves := []interface{}{nil, true, false, 0, -7, 1.5, "", "it's", template.HTML("<b>&"), template.HTML("12"), "a<b>&c", "é\"\\\n", " </script>", []interface{}{}, map[string]interface{}{}}
 	if depth == 0 {
 		return leaves
 	}
@@ -119,6 +119,8 @@ func c20Normalize(v interface{}) interface{} {
 	switch t := v.(type) {
 	case int:
 		return float64(t)
+	case template.HTML:
+		return string(t) // a string kind: marshalled as a JSON string
 	case []interface{}:
 		o := make([]interface{}, len(t))
 		for i := range t {
@@ -146,7 +148,7 @@ func init() {
 			return s
 		},
 		Run:  c20Run,
-		Rule: "truncate: every string of length <=4 (5 thorough) over {a, é, 世, U+0301, \\xff, < > & ' \" = \\n \\\\ U+2028} x size in [-2,9] ∪ {50,70} x 6 trails (incl. empty, multi-byte, longer than size), and patterned strings (a^n, é^n, (a é 世 \\xff)^n) of every length 0..64 x size in [-2,70] x 6 trails; laws: unchanged if <= size characters, else byte-prefix-on-a-character-boundary + trail with at most max(size, |trail|) characters, valid UTF-8 preserved; default size 50 / trail '...'. htmlEscape / jsEscape / raw over every string of length <=4 (5) of the same alphabet (direct call and through a template): no raw specials, quotes and line breaks escaped, raw byte-identical. toJSON over a recursive value generator to depth 2 (3) and every top-level string of length <=3 over {a, \\n, \\t, \\x01, \", \\\\, <, é, U+2028, DEL, ', /}: valid JSON, decodes back to v (numbers as float64), no raw < > &, template result identical to the direct call. Non-trivial: strings containing a multi-byte/invalid/special character or a truncation that actually cuts.",
+		Rule: "truncate: every string of length <=4 (5 thorough) over {a, é, 世, U+0301, \\xff, < > & ' \" = \\n \\\\ U+2028} x size in [-2,9] ∪ {50,70} x 6 trails (incl. empty, multi-byte, longer than size), and patterned strings (a^n, é^n, (a é 世 \\xff)^n) of every length 0..64 x size in [-2,70] x 6 trails; laws: unchanged if <= size characters, else byte-prefix-on-a-character-boundary + trail with at most max(size, |trail|) characters, valid UTF-8 preserved; default size 50 / trail '...'. htmlEscape / jsEscape / raw over every string of length <=4 (5) of the same alphabet (direct call and through a template): no raw specials, quotes and line breaks escaped, raw byte-identical. toJSON over a recursive value generator (incl. template.HTML strings such as the result of raw()) to depth 2 (3) and every top-level string of length <=3 over {a, \\n, \\t, \\x01, \", \\\\, <, é, U+2028, DEL, ', /}: valid JSON, decodes back to v (numbers as float64), no raw < > &, template result identical to the direct call. Non-trivial: strings containing a multi-byte/invalid/special character or a truncation that actually cuts.",
 		Bound: func(th bool) string {
 			if th {
 				return "strings of length <=5 over a 14-symbol alphabet; patterned length 0..64; JSON depth 3"
